@@ -96,7 +96,7 @@ theorem of_ctx {f : Forest} {h : Nat} {c : Ctx} (nd : f.allHandles.Nodup) (e : f
 /-- Distinctness of the children's handles. -/
 theorem nodupKids {f : Forest} {p : Nat} {v : Value} {L : List HTree} (s : SiteAt f p v L) :
     (handlesList L).Nodup ∧ p ∉ handlesList L := by
-  have hsub := findList?_sublist f.roots _ s.kids
+  have hsub := fs_findList?_sublist f.roots _ s.kids
   have := nodup_handles_node (hsub.nodup s.nd)
   exact ⟨this.2, this.1⟩
 
